@@ -138,16 +138,26 @@ def link_events(prog, func, inline=True):
                     evs.append(Event('DET', n.id, p=owner, x=sub.args[0], ast=sub))
                 elif m == 'sort':
                     evs.append(Event('PERM', n.id, q=owner, value=sub, ast=sub))
+                elif m == 'extend' and len(sub.args) == 1 and isinstance(sub.args[0], (ast.Tuple, ast.List)):
+                    for el in sub.args[0].elts:
+                        evs.append(Event('ATT', n.id, q=owner, x=el, ast=sub))
                 elif m in ('extend', 'pop', 'clear', 'reverse'):
                     evs.append(Event('OTHER', n.id, q=owner, how=m, ast=sub))
         if isinstance(st, ast.Assign):
             for t in st.targets:
-                for tt in (t.elts if isinstance(t, (ast.Tuple, ast.List)) else [t]):
+                elts = t.elts if isinstance(t, (ast.Tuple, ast.List)) else [t]
+                vals = st.value.elts if isinstance(t, (ast.Tuple, ast.List)) and isinstance(st.value, (ast.Tuple, ast.List)) \
+                    and len(st.value.elts) == len(elts) else [st.value] * len(elts)
+                unpacked = isinstance(t, (ast.Tuple, ast.List)) and vals[0] is st.value
+                for tt, vv in zip(elts, vals):
                     if isinstance(tt, ast.Attribute) and tt.attr == 'parent':
-                        evs.append(Event('PAR', n.id, x=tt.value, q=st.value, ast=st))
+                        if unpacked:
+                            evs.append(Event('OTHER', n.id, q=tt.value, how='unpacked-parent', ast=st))
+                            continue
+                        evs.append(Event('PAR', n.id, x=tt.value, q=vv, ast=st))
                     elif isinstance(tt, ast.Attribute) and tt.attr == 'children':
                         kind = 'CLR'
-                        v = st.value
+                        v = vv
                         if isinstance(v, ast.Call) and isinstance(v.func, ast.Name) and v.func.id == 'sorted' \
                                 and v.args and path(_children_owner(v.args[0]) or ast.Constant(0)) == path(tt.value):
                             kind = 'PERM'
